@@ -11,6 +11,7 @@ def run(chk):
     textrules.r01_hex(chk, rule="R02-hex")
     from . import writertab
     writertab.compare(chk, "R02-writer", floor=48)
+    writertab.compare_ifdata(chk, "R02-ifdata-writer", floor=22)
     chk.assumptions += ["not decided: token-sequence equality of output and input as such"]
 
 
